@@ -520,9 +520,12 @@ func (s *stickyBalanceStrategy) performReassignments(reassignablePartitions []to
 				Logger.Printf("Expected topic %s partition %d to be assigned to a consumer", partition.Topic, partition.Partition)
 			}
 
-			if _, exists := prevAssignment[partition]; exists {
-				if len(currentAssignment[consumer]) > (len(currentAssignment[prevAssignment[partition].MemberID]) + 1) {
-					sortedCurrentSubscriptions = s.reassignPartition(partition, currentAssignment, sortedCurrentSubscriptions, currentPartitionConsumer, prevAssignment[partition].MemberID)
+			if prev, exists := prevAssignment[partition]; exists {
+				// the previous owner is only a candidate if it is still subject to reassignment and may take the partition
+				_, prevParticipates := currentAssignment[prev.MemberID]
+				if prevParticipates && memberAssignmentsIncludeTopicPartition(consumer2AllPotentialPartitions[prev.MemberID], partition) &&
+					len(currentAssignment[consumer]) > (len(currentAssignment[prev.MemberID])+1) {
+					sortedCurrentSubscriptions = s.reassignPartition(partition, currentAssignment, sortedCurrentSubscriptions, currentPartitionConsumer, prev.MemberID)
 					reassignmentPerformed = true
 					modified = true
 					continue
